@@ -616,9 +616,78 @@ def run_copies_case(case):
             got['%s:%s' % (fname, name)] = max(entries)[1]
     return {'executions': want, 'reported': got, 'count_after': prof.enable_count}
 
+GLOBAL_SRC = '''\
+import functools
+
+def plain(x):
+    return x + 1
+
+class Host:
+    @profile
+    @classmethod
+    def cm(cls, x):
+        return x
+
+    @profile
+    @staticmethod
+    def sm(x):
+        return x
+
+    @profile
+    @property
+    def prop(self):
+        return 7
+
+    @profile
+    @functools.cached_property
+    def cached(self):
+        return 8
+
+    def _base(self, a, b):
+        return a + b
+
+    pm = profile(functools.partialmethod(_base, 1))
+
+    @profile
+    def method(self, x):
+        return x
+
+wrapped_plain = profile(plain)
+wrapped_partial = profile(functools.partial(plain, 3))
+'''
+
+
+def run_global_case(case):
+    """the importable `profile` object of the explicit mode (an enabled GlobalProfiler) as the outermost decorator over every kind"""
+    from line_profiler.explicit_profiler import GlobalProfiler
+    gp = GlobalProfiler()
+    gp.enable()
+    import atexit
+    atexit.unregister(gp.show)
+    ns = {'profile': gp, '__name__': 'global_case'}
+    exec(compile(GLOBAL_SRC, 'global_case.py', 'exec'), ns)
+    n = case['calls']
+    h = ns['Host']()
+    for _ in range(n):
+        ns['Host'].cm(1)
+        ns['Host'].sm(1)
+        h.prop
+        h.pm(2)
+        h.method(1)
+        ns['wrapped_plain'](1)
+        ns['wrapped_partial']()
+    h.cached
+    want = {'cm': n, 'sm': n, 'prop': n, 'cached': 1, '_base': n, 'method': n, 'plain': 2 * n}
+    got = {}
+    for (fname, first, name), entries in gp._profile.get_stats().timings.items():
+        if entries:
+            got[name] = max(entries)[1]
+    return {'executions': want, 'reported': got, 'count_after': gp._profile.enable_count}
+
+
 def main():
     payload = json.load(sys.stdin)
-    res = {'gens': [], 'towers': [], 'copies': []}
+    res = {'gens': [], 'towers': [], 'copies': [], 'globals': []}
     import warnings
     warnings.simplefilter('ignore')
     for c in payload.get('gens', []):
@@ -633,6 +702,12 @@ def main():
         except Exception:
             import traceback
             res['towers'].append({'error': traceback.format_exc()})
+    for c in payload.get('globals', []):
+        try:
+            res['globals'].append(run_global_case(c))
+        except Exception:
+            import traceback
+            res['globals'].append({'error': traceback.format_exc()})
     for c in payload.get('copies', []):
         try:
             res['copies'].append(run_copies_case(c))
